@@ -56,6 +56,9 @@ fn sources(args: &[String], inputs_per: usize) -> Source {
             let cfg = profile(&prof, &mut rng);
             let (g, order) = gen::grammar(&mut rng, &cfg);
             let text = grammar_text(&g, Some(&order));
+            if std::env::var("VH_TRACE").is_ok() {
+                eprintln!("TRY {text:?}");
+            }
             if !matches!(guarded(|| front_end(&text)), Ok(Ok(_))) {
                 continue;
             }
@@ -79,7 +82,11 @@ pub fn c12(args: &[String]) {
     let src = sources(args, 4);
     let mut w = writer(&out);
     let (mut id, mut skipped_big, mut runs, mut absorbed_seen, mut skipped_panic) = (0u64, 0u64, 0u64, 0u64, 0u64);
+    let trace = std::env::var("VH_TRACE").is_ok();
     for (text, cs) in &src.grammars {
+        if trace {
+            eprintln!("GRAMMAR {text:?}");
+        }
         // the limit is process-global and pest_meta's own parser is subject to it
         pest::set_call_limit(None);
         let opt = match guarded(|| front_end(text)) {
@@ -88,7 +95,12 @@ pub fn c12(args: &[String]) {
         };
         let vm = pest_vm::Vm::new(opt);
         for (start, inp) in cs {
-            pest::set_call_limit(NonZeroUsize::new(1_000_000));
+            if trace {
+                eprintln!("  CASE {start} {inp:?}");
+            }
+            // a probe run tells how many calls the parse needs; parses needing more than max_n are not swept, so the
+            // probe's own limit only has to exceed that (a large one lets `(PUSH(PEEK_ALL))*` grow the stack for minutes)
+            pest::set_call_limit(NonZeroUsize::new((max_n as usize + 10) * 4));
             let o = run_vm(&vm, start, inp);
             let n = o["calls"].as_u64().unwrap_or(0);
             if n > max_n || o["limit_reached"] == true || tok_depth(&o["toks"]) > 40 {
